@@ -149,6 +149,9 @@ func newLab(fatal func(string, ...any), c labCfg) *lab {
 	}
 	if c.svc {
 		chk(dp.AddSvc(addr.SvcCS, addr.MustParseHost("10.0.0.77"), 30252))
+		// a service whose only instance was registered and removed again (e.g. after a reload)
+		chk(dp.AddSvc(addr.SvcDS, addr.MustParseHost("10.0.0.78"), 30253))
+		chk(dp.DelSvc(addr.SvcDS, addr.MustParseHost("10.0.0.78"), 30253))
 	}
 	if c.portStart != 0 || c.portEnd != 0 {
 		dp.SetPortRange(c.portStart, c.portEnd)
